@@ -53,18 +53,26 @@ package local
 
 // Blocks may be released only after a state file that was produced from a
 // state obtained earlier has been written durably.
+// stGuard(src): the lock that serialises "take a snapshot of the state, write
+// it, tell the source it has been written"; a snapshot taken outside it could
+// be overtaken by another writer's notification (blocks released while the
+// file on disk still lists them).
+//@ ghost stGuard(ref) int
 //@ iface PersistentStateSource.GetPersistentState
 //@   requires [locked] held(guard(self)) >= 1
+//@   requires [snapshot-inside-the-state-write-lock] held(stGuard(self)) == 2
 //@   modifies getMark(self)
 //@   ensures getMark(self) == stateWrites
 //@ iface PersistentStateSource.NotifyPersistentStateWritten
 //@   requires [write-locked] held(guard(self)) == 2
+//@   requires [still-inside-the-state-write-lock] held(stGuard(self)) == 2
 //@   requires [state-durable-first] stateWrites > getMark(self)
 //@   modifies nWritten(self)
 //@   ensures nWritten(self) == old(nWritten(self)) + 1
 
 // ---- PeriodicSyncer
 //@ pure psInv(ps) = ps.sourceLock != nil && guard(ps.source) == ps.sourceLock && ps.source != nil && ps.store != nil
+//@     && stGuard(ps.source) == addr(ps.storeLock)
 //@     && ps.dataSyncer != nil && ps.clock != nil && ps.errorLogger != nil
 //@ pure psUnlocked(ps) = held(ps.sourceLock) == 0 && held(ps.storeLock) == 0
 
